@@ -13,15 +13,15 @@
 (*   the real simulator, here on the projection of the specification's step),  *)
 (*   C14 StrictRel and "no strict error on a fully initialized machine",       *)
 (*   C08 structure: one-hot condition codes, PSR bits, instruction counting.   *)
-EXTENDS MachineProps
+EXTENDS MachineProps, Json, IOUtils
 
 CONSTANTS Depth, Wide
 
-Boundary == <<0, 12287, 12288, 12289, 65022, 65023, 65024, 65026, 65030, 65532, 65534, 65535>>
+Boundary == PatBoundary
 NB == Len(Boundary)
 \* memory: word a holds a boundary address (so every pointer and vector leads to a boundary);
 \* base 1: initialized, base 2: uninitialized
-BaseRdMC(b, a) == W(Boundary[(a % NB) + 1], IF b = 1 THEN 65535 ELSE 0)
+BaseRdMC(b, a) == PatRd(b, a)
 
 \* instruction universe (encoded words)
 Offs9 == {0, 1, -1, 255, -256}
@@ -50,7 +50,7 @@ Mk(pc, psr, rv, rm, r6, strict, real, base) ==
 VARIABLES st, prev, obsv, n
 vars == <<st, prev, obsv, n>>
 
-Init == /\ \E pc \in (IF Wide THEN {0, 12287, 12288, 65023, 65024, 65535} ELSE {12288, 65023, 65024}), psr \in {32770, 2, 33537},
+Init == /\ \E pc \in (IF Wide THEN {0, 12287, 12288, 65023, 65024, 65535} ELSE {12288, 65023, 65024}), psr \in {32770, 2, 33537, 32768} \cup (IF Wide THEN {7} ELSE {}),     \* incl. no condition code set (an RTI restores whatever word it pops) and all three
               rv \in (IF Wide THEN {12288, 12287, 65024, 65023, 0, 65535, 65030, 65532} ELSE {12288, 65023}),
               rm \in {65535, 0}, r6 \in (IF Wide THEN {12288, 65024, 0, 12289} ELSE {12288, 65024}), strict \in BOOLEAN, real \in BOOLEAN, base \in {1, 2} :
               st = Mk(pc, psr, rv, rm, r6, strict, real, base)
@@ -81,5 +81,9 @@ NoStrictOnInit == (Stepped /\ FullyInit(prev)) => obsv.res \notin StrictErrs
 \* (an RTI restores the PSR word found on the stack as it is - whatever the program put there)
 OneHotCC == (Stepped /\ CC(prev.psr) \in {1, 2, 4}) => (CC(st.psr) \in {1, 2, 4} \/ st.psr = Rd(prev, Wrap(R(prev, 6).v + 1)).v)
 CountMC  == Stepped => (st.icount = prev.icount \/ (st.icount = prev.icount + 1 /\ obsv.res = "ok"))
-\* a rejected step in user mode changes no memory (virtual traps)
+\* RP: every one-step behaviour (initial machine, instruction word) for the harness to perform on a real simulator
+PatternShared == ("OPS" \in DOMAIN IOEnv) => ndJsonDeserialize(IOEnv.OPS)[1].pattern = PatBoundary
+B01(x) == IF x THEN 1 ELSE 0
+Emit == (n = 1) => PrintT(<<"HIST", <<prev.pc, prev.psr, prev.reg[1].v, prev.reg[1].m, prev.reg[7].v, B01(prev.flags.strict),
+                                      B01(prev.flags.real), prev.base, prev.memw[prev.pc].v>>>>)
 =============================================================================
